@@ -636,13 +636,19 @@ func (x *Executor) havocLoc(env *Env, st, pre *State, m Expr) error {
 			return nil
 		}
 		if stt, isS := pt.Elem().Underlying().(*types.Struct); isS {
-			for i := 0; i < stt.NumFields(); i++ {
-				comp, _ := u.fieldComp(pt.Elem(), stt.Field(i).Name())
-				nv := u.freshConst("mod$"+stt.Field(i).Name(), u.sortOf(stt.Field(i).Type()))
-				if wf := u.wfValue(nv, stt.Field(i).Type(), 0); wf != "true" {
+			_ = stt
+			for _, loc := range x.compsOfObject(pv.T, pt.Elem()) {
+				vt := u.heapTypes[loc.comp]
+				if u.heapKinds[loc.comp] == "elem" {
+					inner := u.freshConst("modarr", "(Array Int "+u.sortOf(vt)+")")
+					x.heapSet(st, loc.comp, fmt.Sprintf("(store %s %s %s)", x.heapGet(st, loc.comp), loc.ref, inner))
+					continue
+				}
+				nv := u.freshConst("mod$f", u.sortOf(vt))
+				if wf := u.wfValue(nv, vt, 0); wf != "true" {
 					u.assume(wf)
 				}
-				x.heapSet(st, comp, fmt.Sprintf("(store %s %s %s)", x.heapGet(st, comp), pv.T, nv))
+				x.heapSet(st, loc.comp, fmt.Sprintf("(store %s %s %s)", x.heapGet(st, loc.comp), loc.ref, nv))
 			}
 			for _, g := range u.ghostFields(pt.Elem()) {
 				comp, _ := u.fieldComp(pt.Elem(), g.name)
